@@ -15,7 +15,7 @@ PROP = {'gen_tables': ['Callers', 'TransSweeten', 'TransMessage'],
                  'diagnostics are issued through Logger.Error: they are required only where the core enables Error (DESIGN §6.1)',
                  'which arm of zap.Any a value takes is a hand-written table in the model for the 17 generated dynamic types (validated by Corr; '
                  'the oracle compares every recorded field with zap.Any(k, v) itself through Field.Equals)'],
- 'technique': 'Lean 4: the Go index loop of sweetenFields proved total and equal to a structural sweep; accounting by functional induction; method routing decided over the regenerated Callers table; tie: all argument shapes up to length 5/8 executed on the real code + translated source (sweetenFields incl. its three diagnostic messages proved equal to the model)',
+ 'technique': 'Lean 4: the Go index loop of sweetenFields proved total and equal to a structural sweep; accounting by functional induction; method routing decided over the regenerated Callers table; tie: all argument shapes up to length 5/8 executed on the real code + translated source (sweetenFields incl. its three diagnostic messages, getMessage / getMessageln and the whole of log / logln proved equal to the model)',
  'level_text': 'accounting/fields_in_order/first_error_key hold for every argument list; every exported SugaredLogger method is shown (Gen) to route through log/logln/sweetenFields.',
  'level_note': 'fmt is a parameter with three stated facts; which arm of zap.Any a value takes is a model table validated by comparing every field with zap.Any itself.',
 }
